@@ -99,6 +99,37 @@ def task_failure(task) -> str | None:
     return None if exc is None else scrub(repr(exc))[:200]
 
 
+PROGRAMMING_ERRORS = (IndexError, KeyError, AttributeError, TypeError, NameError, ZeroDivisionError, RecursionError)
+
+
+def raised_in_library(exc: BaseException | None, _depth: int = 0) -> "str | None":
+    """`Type@file:function` when `exc` (or a member of the group it is) is a programming-error
+    class (IndexError, TypeError ...) whose innermost traceback frame is a line of the checked
+    library: the library itself tripped, the exception is not one a caller's code raised and the
+    library passed on (a re-raise keeps the innermost frame of the original raise)."""
+    from hv import boot
+
+    if exc is None or _depth > 4:
+        return None
+    if isinstance(exc, BaseExceptionGroup):
+        for sub in exc.exceptions:
+            hit = raised_in_library(sub, _depth + 1)
+            if hit:
+                return hit
+        return None
+    if not isinstance(exc, PROGRAMMING_ERRORS):
+        return None
+    tb, last = exc.__traceback__, None
+    while tb is not None:
+        last, tb = tb, tb.tb_next
+    if last is None:
+        return None
+    fn = os.path.realpath(last.tb_frame.f_code.co_filename)
+    if not fn.startswith(boot.SRC + os.sep):
+        return None
+    return f"{type(exc).__name__}@{os.path.relpath(fn, boot.SRC)}:{last.tb_frame.f_code.co_name}"
+
+
 def library_exception_result(exc: BaseException) -> "Result":
     """An exception that escaped harness.execute.  If it was raised by a frame of the checked
     library (innermost Python frame under HV_REPO/src) the harness did not anticipate it: the
